@@ -30,6 +30,22 @@ theorem validTablesB_sound {y : DSymData} (h : validTablesB y = true) : ValidTab
   obtain ⟨⟨⟨h1, h2⟩, h3⟩, h4⟩ := h
   exact ⟨validSetB_sound h1, h2, h3, h4⟩
 
+theorem validSymB_sound {y : DSymData} (h : validSymB y = true) : ValidSym y := by
+  unfold validSymB at h
+  rw [Bool.and_eq_true] at h
+  refine ⟨validTablesB_sound h.1, ?_⟩
+  have hf := h.2
+  unfold farCommuteB at hf
+  simp only [List.all_eq_true, List.mem_range, Bool.or_eq_true, Bool.not_eq_true', decide_eq_false_iff_not,
+    beq_iff_eq] at hf
+  intro i j d hij hj h1 h2
+  rcases hf i (by omega) j (by omega) with hn | hall
+  · exact absurd hij hn
+  · have := hall (d - 1) (by omega)
+    have hd : d - 1 + 1 = d := by omega
+    rw [hd] at this
+    exact this
+
 theorem sheetCompatB_iff {s : DSetData} {n : Nat} {σ : Nat → Nat → Nat → Nat} :
     sheetCompatB s n σ = true ↔ SheetCompat s n σ := by
   unfold sheetCompatB
